@@ -302,7 +302,14 @@ fn fam_deflate(s: &Script, st: &mut Stats) -> Result<RunInfo, Violation> {
             h.u(rc as u64);
             h.u(din as u64);
             h.u(dout as u64);
-            if rc != exp_rc || din != exp_in || dout != exp_out {
+            // a flush value outside the enum has no corresponding Rust call: the misuse clause asks for an error
+            // code (whichever) and no progress
+            let bad_flush = MZFlush::new(fl).is_err();
+            if bad_flush {
+                if rc >= 0 || din != 0 || dout != 0 {
+                    return viol("C17.misuse_returns_error_code", format!("mz_deflate call {} with flush {}: rc {} consumed {} written {}", k, fl, rc, din, dout));
+                }
+            } else if rc != exp_rc || din != exp_in || dout != exp_out {
                 return viol("C17.same_as_rust", format!("mz_deflate call {} (avail_in {}, avail_out {}, flush {}): rc {} consumed {} written {}; deflate() gives {} / {} / {}", k, inb.len(), ol, fl, rc, din, dout, exp_rc, exp_in, exp_out));
             }
             if gout.bytes()[..dout] != rout[..dout] {
@@ -415,7 +422,12 @@ fn fam_inflate(s: &Script, st: &mut Stats) -> Result<RunInfo, Violation> {
             h.u(rc as u64);
             h.u(din as u64);
             h.u(dout as u64);
-            if rc != exp_rc || din != exp_in || dout != exp_out {
+            let bad_flush = MZFlush::new(fl).is_err();
+            if bad_flush {
+                if rc >= 0 || din != 0 || dout != 0 {
+                    return viol("C17.misuse_returns_error_code", format!("mz_inflate call {} with flush {}: rc {} consumed {} written {}", k, fl, rc, din, dout));
+                }
+            } else if rc != exp_rc || din != exp_in || dout != exp_out {
                 return viol("C17.same_as_rust", format!("mz_inflate call {} (avail_in {}, avail_out {}, flush {}): rc {} consumed {} written {}; inflate() gives {} / {} / {}", k, inb.len(), ol, fl, rc, din, dout, exp_rc, exp_in, exp_out));
             }
             if gout.bytes()[..dout] != rout[..dout] {
